@@ -2908,6 +2908,16 @@ class _ExtMixin:
             fr.raised.append(g)
             fr.rdead.append(g)
             return Undef()
+        if any(isinstance(self.simp(a_), GenV) for a_ in args):
+            # a generator object handed to a library function (itertools.groupby(gen, ...)): the elements it yields
+            args = list(args)
+            for i_, a_ in enumerate(args):
+                if isinstance(self.simp(a_), GenV):
+                    its_ = self.seq_items(a_, node)
+                    lst_ = self.mk_list([])
+                    self.heap[lst_.oid].items = list(its_)
+                    self.heap[lst_.oid].comp = "gen"
+                    args[i_] = lst_
         self.event("extcall", (name, tuple(args), kw), node)
         if kw:
             return Op("call:" + short, *args, *[Op("kv", Const(k), v) for k, v in kw])
